@@ -285,10 +285,10 @@ def run(eng, rep):
                 "return of solve_main takes its record from one get_final_results() call after the last mutation (T2).")
     rep.explain('Also decided: the incumbent is overwritten only by a point known to be better (C04-5); selection tables are computed by walking the CFG to the store for every row of the order domain.')
     rep.not_decided += ["'a later run can only improve on an earlier one' beyond the merge guard", "anything about objective values themselves"]
-    rule_results_consumed(eng, rep)
-    rule_incumbent_saved_before_restart(eng, rep)
-    rule_selection(eng, rep, "C04-3.selection-prefers-the-smaller-value", {"ORDER", "NONE_HOLDER"}, "C04")
-    rule_exits_select(eng, rep)
-    rule_incumbent_not_overwritten_blindly(eng, rep)
+    rep.guarded(rule_results_consumed, eng, rep)
+    rep.guarded(rule_incumbent_saved_before_restart, eng, rep)
+    rep.guarded(rule_selection, eng, rep, "C04-3.selection-prefers-the-smaller-value", {"ORDER", "NONE_HOLDER"}, "C04")
+    rep.guarded(rule_exits_select, eng, rep)
+    rep.guarded(rule_incumbent_not_overwritten_blindly, eng, rep)
     from .records import rule_eval_results_are_fresh
-    rule_eval_results_are_fresh(eng, rep, "C04-6.evaluation-results-are-fresh-arrays")
+    rep.guarded(rule_eval_results_are_fresh, eng, rep, "C04-6.evaluation-results-are-fresh-arrays")
